@@ -130,6 +130,24 @@ class VFalsy(VBase):
         return 0
 
 
+@dataclass(frozen=True)
+class VStrInt(VBase):
+    s: str = ""
+    i: int = 0
+
+
+@dataclass(frozen=True)
+class VStrThenInt(VBase):
+    a: str = ""
+    z: int = 0
+
+
+@dataclass(frozen=True)
+class VStrKid(VBase):
+    s: str = ""
+    kid: VBase | None = None
+
+
 class Color(enum.Enum):
     RED = 1
     BLUE = 2
@@ -174,7 +192,7 @@ CLASSES: dict[str, type[ASTNode]] = {
     c.__name__: c
     for c in (
         VBase, VLeaf, VSubLeaf, VStr2, VNonCmp, VNonInit, VOne, VReq, VMany, VPair, VMixed, VInh,
-        VAbAc, VTwinA, VTwinB, VZ, VZL, VFalsy, VRich, VTyped,
+        VAbAc, VTwinA, VTwinB, VZ, VZL, VFalsy, VRich, VTyped, VStrInt, VStrKid, VStrThenInt,
     )
 }
 
